@@ -1,1 +1,60 @@
-(* C01 -- placeholder until the round-trip theorems are stated here. *)
+(* C01 -- decryption inverts encryption; unpadded operations preserve length.
+   Block level (this file, part 1): for every cipher with well-formed sizes, every key (the cipher
+   is a parameter), every IV and every block sequence, decrypting under ANY schedule what was
+   encrypted under ANY other schedule, in place or buffer-to-buffer, returns the original blocks.
+   CBC/PCBC/IGE need D(E x) = x; CFB/CFB-8/OFB need nothing (E arbitrary). *)
+From BM Require Import BlockModes Spec BlockModes_proofs Spec_proofs RoundTrip_proofs.
+
+Theorem C01_cbc : forall C : cipher, cipher_wf C -> DE_id C -> forall sched1 sched2 iv cs cs2,
+  length iv = c_bs C -> all_len (c_bs C) (map rd_in cs) ->
+  sched_total sched1 = length cs -> sched_total sched2 = length cs2 ->
+  map rd_in cs2 = map cout (snd (run_sched (cbc_enc_block C) cbc_enc_w (cbc_enc_par C) iv sched1 cs)) ->
+  map cout (snd (run_sched (cbc_dec_block C) (cbc_dec_w C) (cbc_dec_par C) iv sched2 cs2)) = map rd_in cs.
+Proof. exact cbc_model_roundtrip. Qed.
+Print Assumptions C01_cbc.
+
+Theorem C01_pcbc : forall C : cipher, cipher_wf C -> DE_id C -> forall sched1 sched2 iv cs cs2,
+  length iv = c_bs C -> all_len (c_bs C) (map rd_in cs) ->
+  sched_total sched1 = length cs -> sched_total sched2 = length cs2 ->
+  map rd_in cs2 = map cout (snd (run_sched (pcbc_enc_block C) pcbc_enc_w (pcbc_enc_par C) iv sched1 cs)) ->
+  map cout (snd (run_sched (pcbc_dec_block C) pcbc_dec_w (pcbc_dec_par C) iv sched2 cs2)) = map rd_in cs.
+Proof. exact pcbc_model_roundtrip. Qed.
+Print Assumptions C01_pcbc.
+
+Theorem C01_ige : forall C : cipher, cipher_wf C -> DE_id C -> forall sched1 sched2 x y cs cs2,
+  length x = c_bs C -> length y = c_bs C -> all_len (c_bs C) (map rd_in cs) ->
+  sched_total sched1 = length cs -> sched_total sched2 = length cs2 ->
+  map rd_in cs2 = map cout (snd (run_sched (ige_enc_block C) ige_enc_w (ige_enc_par C) (x, y) sched1 cs)) ->
+  map cout (snd (run_sched (ige_dec_block C) ige_dec_w (ige_dec_par C) (x, y) sched2 cs2)) = map rd_in cs.
+Proof. exact ige_model_roundtrip. Qed.
+Print Assumptions C01_ige.
+
+Theorem C01_cfb : forall C : cipher, cipher_wf C -> forall sched1 sched2 iv cs cs2,
+  length iv = c_bs C -> all_len (c_bs C) (map rd_in cs) ->
+  sched_total sched1 = length cs -> sched_total sched2 = length cs2 ->
+  map rd_in cs2 = map cout (snd (run_sched (cfb_enc_block C) cfb_enc_w (cfb_enc_par C) (cfb_init C iv) sched1 cs)) ->
+  map cout (snd (run_sched (cfb_dec_block C) (cfb_dec_w C) (cfb_dec_par C) (cfb_init C iv) sched2 cs2)) = map rd_in cs.
+Proof. exact cfb_model_roundtrip. Qed.
+Print Assumptions C01_cfb.
+
+Theorem C01_cfb8 : forall C : cipher, cipher_wf C -> 0 < c_bs C -> forall sched1 sched2 s bytes cs cs2,
+  length s = c_bs C -> map rd_in cs = singles bytes ->
+  sched_total sched1 = length cs -> sched_total sched2 = length cs2 ->
+  map rd_in cs2 = map cout (snd (run_sched (cfb8_enc_block C) cfb8_enc_w (cfb8_enc_par C) s sched1 cs)) ->
+  map cout (snd (run_sched (cfb8_dec_block C) cfb8_dec_w (cfb8_dec_par C) s sched2 cs2)) = map rd_in cs.
+Proof. exact cfb8_model_roundtrip. Qed.
+Print Assumptions C01_cfb8.
+
+Theorem C01_ofb : forall C : cipher, cipher_wf C -> forall sched1 sched2 iv cs cs2,
+  length iv = c_bs C -> all_len (c_bs C) (map rd_in cs) ->
+  sched_total sched1 = length cs -> sched_total sched2 = length cs2 ->
+  map rd_in cs2 = map cout (snd (run_sched (ofb_enc_block C) ofb_w (ofb_enc_par C) iv sched1 cs)) ->
+  map cout (snd (run_sched (ofb_dec_block C) ofb_w (ofb_dec_par C) iv sched2 cs2)) = map rd_in cs.
+Proof. exact ofb_model_roundtrip. Qed.
+Print Assumptions C01_ofb.
+
+Theorem C01_block_lengths : forall (S : Type) (single : S -> cell -> S * cell) w par st sched cs,
+  (forall st ch, length ch = w -> par st ch = fold_cells single st ch) -> sched_total sched = length cs ->
+  length (snd (run_sched single w par st sched cs)) = length cs.
+Proof. exact model_lengths. Qed.
+Print Assumptions C01_block_lengths.
